@@ -5,9 +5,11 @@ are run by the pinned C driver three times:
   A  in file order, no poisoning;
   B  in a shuffled order, stack poisoned with 0x5A.. before every call and
      glibc MALLOC_PERTURB_ = 0x5A (fresh and freed heap blocks filled);
-  C  each case preceded by another case of the same API (same argument
-     count where possible), stack poison 0xC3.., MALLOC_PERTURB_ = 0xC3.
-All three outputs must be identical line by line and equal to the model's
+  C  each case preceded by another case of the same API (same element
+     count where possible), stack poison 0xC3.., MALLOC_PERTURB_ = 0xC3;
+  D  dead stack filled with 64-bit words equal to the case's element count
+     (adversarial residue for "already analysed this count?" shortcuts).
+All four outputs must be identical line by line and equal to the model's
 line (the model is a pure function).  Thorough tier: the plain run is repeated
 under valgrind memcheck; any use of an uninitialised value is a violation.
 """
@@ -25,6 +27,14 @@ def custom(ctx):
             cases += [c for c in ctx.cases_from(prop, limit=per) if c not in cases]
         except SystemExit:
             continue
+    # histories inside one case: APIs the parts provide to run the same call twice
+    # on different data with everything else equal (same count, same meta object)
+    try:
+        extra = [c for c in ctx.cases_from("C06") if c.split(" ", 1)[0] in ("adaptive_with2", "adaptive_rt2")]
+        ctx.rng.shuffle(extra)
+        cases += [c for c in extra[:400] if c not in cases]
+    except SystemExit:
+        pass
     if not cases:
         cases = ctx.cases_from("C01", limit=per)
     info = {"cases": len(cases), "modes": []}
@@ -35,9 +45,11 @@ def custom(ctx):
                           env={"MALLOC_PERTURB_": "90"})
     rcC, C, _ = ctx.run_c(b, cases, args=["--pred", str(ctx.seed % 100000 + 1), "--poison", "0xC3"],
                           env={"MALLOC_PERTURB_": "195"})
+    rcD, D, _ = ctx.run_c(b, cases, args=["--poison-count"], env={"MALLOC_PERTURB_": "17"})
     rcM, M, _ = ctx.run_model(cases)
-    evals = 3 * len(cases)
-    for name, X in (("shuffled+poison(0x5A)", B), ("same-api-predecessor+poison(0xC3)", C)):
+    evals = 4 * len(cases)
+    for name, X in (("shuffled+poison(0x5A)", B), ("same-api-predecessor+poison(0xC3)", C),
+                    ("dead stack filled with the case's element count", D)):
         n = 0
         if len(X) != len(A):
             failures.append(("pinned", cases[min(len(X), len(cases) - 1)], "driver died in mode %s" % name, ""))
@@ -48,7 +60,13 @@ def custom(ctx):
                 if n == 1:
                     failures.append(("pinned", c, "result depends on history/residue (%s): plain run gave %r, this mode gave %r" % (name, a[-200:], x[-200:]), x))
         info["modes"].append("%s: %d differing lines" % (name, n))
-    nm = sum(1 for a, m in zip(A, M) if a != m)
+    nm = 0
+    for c, a, m in zip(cases, A, M):
+        if a != m:
+            nm += 1
+            if nm == 1:
+                failures.append(("pinned", c, "the implementation's result differs from the pure model's (a function of the "
+                                 "arguments alone): C gave %r, model %r" % (a[-200:], m[-200:]), a))
     info["modes"].append("plain vs model: %d differing lines" % nm)
     if ctx.tier == "thorough":
         try:
